@@ -29,9 +29,9 @@ package main
 
 import (
 	"fmt"
-	"sort"
 	"go/ast"
 	"go/token"
+	"sort"
 	"strconv"
 	"strings"
 )
@@ -58,18 +58,20 @@ type g2lTarget struct {
 	// fresh result of a library call that is neither returned nor stored): in-place updates through them are
 	// allowed; the claim belongs to the trusted base of the theorem that uses the translation
 	// part of a function instead of its whole body:
-	closureOf string   // translate the body of the function literal passed to this callee (e.g. "repo.ListSignatures")
-	after     string   // translate the top-level statements AFTER the statement that calls this callee
-	outer     []string // the names this configuration uses for the variables of the ENCLOSING function the part
+	closureOf   string // translate the body of the function literal passed to this callee (e.g. "repo.ListSignatures")
+	after       string // translate the top-level statements AFTER the statement that calls this callee
+	classSlices bool   // slice expressions through the class GoLite.Slice (strings as well as lists) instead
+	// of the list functions GoLite.sliceTo / sliceFrom
+	outer []string // the names this configuration uses for the variables of the ENCLOSING function the part
 	// refers to (parameters first, then locals, in declaration order). The translator finds the actual
 	// ones by position, not by name, and renames them to these - so renaming such a variable in the Go
 	// source changes nothing here. A different NUMBER of such variables is a failure (it lists them).
-	captures  []string // variables of the enclosing function the part reads and writes: they are
+	captures []string // variables of the enclosing function the part reads and writes: they are
 	// parameters of the Lean definition (same names) and are returned, as a tuple, after the results
 	dropArgs   []string // identifiers dropped from every argument list (context.Context values)
 	dropAssign []string // assignment targets (exprText) whose assignments are left out; each is an
 	// abstraction that must be named in the trusted base of the theorem that uses the translation
-	nres int // number of results of the part (closures: of the function literal)
+	nres       int            // number of results of the part (closures: of the function literal)
 	optFields  []string       // struct field names that hold nil-able values (pointers, nil-able slices)
 	outArgs    map[string]int // Go callee text -> index of the `&x` argument the call assigns
 	wrapErrors bool           // fmt.Errorf("..%w..", .., err) -> GoLite.wrapf (the kind of err is kept)
@@ -85,23 +87,23 @@ type g2lTarget struct {
 }
 
 type g2l struct {
-	t     *g2lTarget
-	opt   map[string]bool
-	pkgs  map[string]bool // imported package names of the file
+	t        *g2lTarget
+	opt      map[string]bool
+	pkgs     map[string]bool // imported package names of the file
 	cur      map[string]bool // names declared in the CURRENT block (see shadowOK)
 	curEnd   token.Pos       // end of the current block
 	curRet   bool            // the current block ends with a return statement
 	inLoop   int             // nesting depth of loops around the current statement
 	part     []ast.Stmt      // the statements being translated
 	declared map[string]bool // locals already introduced with `let mut` (Go's := may re-declare them; Lean may not shadow)
-	owned map[string]bool // locals holding a value created in this function (literal, make, var of value type):
+	owned    map[string]bool // locals holding a value created in this function (literal, make, var of value type):
 	// only these may be updated in place - anything else may alias memory the caller or another
 	// variable sees, which a value-semantics translation would silently lose
-	drop []string // dropCalls of the target + "<v>." for every local v := <dropped call>(..)
+	drop       []string        // dropCalls of the target + "<v>." for every local v := <dropped call>(..)
 	shared     map[string]bool // sharedMaps of the target, by exprText
 	valueRoots map[string]bool // struct parameters passed by value that have a shared map field
-	named      []string   // named results of the function, in order
-	namedTypes []ast.Expr // their types
+	named      []string        // named results of the function, in order
+	namedTypes []ast.Expr      // their types
 }
 
 // ghost names of a shared map path
@@ -262,6 +264,17 @@ func (g *g2l) expr(e ast.Expr) string {
 	case *ast.SliceExpr:
 		if x.Low == nil && x.High == nil && x.Max == nil {
 			return g.expr(x.X) // x[:] - the whole array / slice
+		}
+		if x.Max == nil && !x.Slice3 && g.t.classSlices {
+			// the target slices STRINGS (or both): GoLite.slice of class GoLite.Slice (String by character, List)
+			lo, hi := "(0 : Int)", "none"
+			if x.Low != nil {
+				lo = g.expr(x.Low)
+			}
+			if x.High != nil {
+				hi = "(some " + g.expr(x.High) + ")"
+			}
+			return "(GoLite.slice " + g.expr(x.X) + " " + lo + " " + hi + ")"
 		}
 		if x.Max == nil && !x.Slice3 {
 			// x[lo:hi] = (x[:hi])[lo:]; Go panics where a bound is out of range, GoLite.sliceTo / sliceFrom clamp
